@@ -103,7 +103,7 @@ pub fn run(ctx: &Ctx, replay: Option<&J>) -> CheckResult {
         return CheckResult { evidence: ev, rule, assumptions, violations: vs };
     }
     let golden = crate::pool::golden_frames();
-    let reps = ctx.n(200, 3000) as usize;
+    let reps = ctx.n(200, 12000) as usize;
     let n_jobs = 1024 + golden.len();
     let parts: Vec<(Evidence, Vec<Violation>)> = (0..n_jobs)
         .into_par_iter()
